@@ -156,6 +156,18 @@ PROPS = {
         assumptions=["User and Projection terms are outside the model (comparing/hashing a projection panics by design: C23)"],
         open=[],
     ),
+    "C22": dict(
+        title="user extension hooks (constraint lifecycle, process_extension, per-branch user state)",
+        props_module="PvModel.Props.C22",
+        rule="tree programs (1 in 4 with a plusz among the atoms) and FD programs, nested conde/fresh, with a probe goal after EVERY goal of every "
+             "branch and a final probe after reify; the instrumented User type counts hook calls and extension bindings; oracle at every probe: "
+             "with - take = stored; for pure tree programs: bindings reported to process_extension = bindings in the substitution, each reported "
+             "binding in force when the hook runs; observable for the model: sorted (answer terms, with-take, stored) of the final probes; "
+             "non-trivial = >2 probes executed; distinct = distinct case lines",
+        trusted=SEARCH_TRUST + ["absolute hook counts depend on the hash order of the store (measured) and are not compared; their difference is"],
+        assumptions=[],
+        open=["lifting the one-step lifecycle lemmas to all reachable states through the re-entrant FD propagation loop is carried by the probes on the real engine"],
+    ),
     "C01": dict(
         title="unification (State::unify vs unifyF)",
         props_module="PvModel.Props.C01",
